@@ -10,7 +10,7 @@ from __future__ import annotations
 import itertools
 from urllib.parse import unquote, unquote_to_bytes, urlsplit
 
-from ..monitors.reach import Reach
+from ..monitors.reach import Reach, opt
 
 ID = "C15"
 RULE = (
@@ -196,7 +196,11 @@ def check_dispatcher(W, rec, idx, of):
                                 rec.nontrivial(("d", mk, p, sn))
                             case = {"family": "dispatcher", "mounts": list(mk), "path": p, "script_name": sn}
                             env = {"PATH_INFO": p, "SCRIPT_NAME": sn}
-                            d(env, None)
+                            try:
+                                d(env, None)
+                            except Exception as ex:  # noqa: BLE001
+                                rec.violation(f"C15/dispatcher-raises-{type(ex).__name__}", f"{ex!r}; {case}", case, monitor="dispatcher-reference")
+                                continue
                             name, s, pi = seen["r"]
                             cands = [m for m in mk if p == m or p.startswith(m + "/")]
                             exp = max(cands, key=len) if cands else "default"
@@ -224,10 +228,10 @@ def run(shard, rec, rng):
     from werkzeug import _internal as IN
     from werkzeug.sansio import utils as SU
 
-    reach = Reach(rec, {"iri_to_uri": W["urls"].iri_to_uri, "uri_to_iri": W["urls"].uri_to_iri, "_decode_idna": W["urls"]._decode_idna,
-                        "_wsgi_decoding_dance": IN._wsgi_decoding_dance, "_wsgi_encoding_dance": IN._wsgi_encoding_dance,
-                        "get_current_url": SU.get_current_url, "get_host": SU.get_host, "DispatcherMiddleware.__call__": W["DispatcherMiddleware"].__call__,
-                        "EnvironBuilder.get_environ": W["EnvironBuilder"].get_environ})
+    reach = Reach(rec, {"iri_to_uri": opt(lambda: W["urls"].iri_to_uri), "uri_to_iri": opt(lambda: W["urls"].uri_to_iri), "_decode_idna": opt(lambda: W["urls"]._decode_idna),
+                        "_wsgi_decoding_dance": opt(lambda: IN._wsgi_decoding_dance), "_wsgi_encoding_dance": opt(lambda: IN._wsgi_encoding_dance),
+                        "get_current_url": opt(lambda: SU.get_current_url), "get_host": opt(lambda: SU.get_host), "DispatcherMiddleware.__call__": opt(lambda: W["DispatcherMiddleware"].__call__),
+                        "EnvironBuilder.get_environ": opt(lambda: W["EnvironBuilder"].get_environ)})
     cfg = TIERS[shard["_tier"]]
     idx, of = shard["index"], shard["of"]
     # exhaustive %XX in every component position
